@@ -56,6 +56,9 @@ func checkC17(r *core.Run) {
 			guard.Ne(parsed+".Address", k+"GetPaymentAddress("+msg+".Did)#0.Address"),
 			guard.Ne(parsed+".Network", "\"cosmos\""),
 			guard.Ne(parsed+".Chain", "sdk.Context.ChainID()"))),
+		cl("remove/update-lists-name-exactly-the-did's-own-accounts",
+			guard.Eq("builtin.len("+acct+")", "(builtin.len("+msg+".RemoveAccountDid) + builtin.len("+msg+".UpdateAccountAuth))"),
+			guard.ForAll(msg+".RemoveAccountDid", guard.True("did/keeper.inList("+rem+","+acct+")"))),
 		cl("new-document-id-recomputed", guard.Eq(msg+".NewDocId", "did/keeper.CalculateDocId("+msg+".Keys,"+msg+".Timestamp)#0")),
 	}, 8)
 
